@@ -848,3 +848,69 @@ CASES += [
  dict(id='parser-negation-map-drops-not', kind='fire', file=P, patch='bn30-08.diff', old='.map(|negated| Self::Not(Box::new(negated)))', new='.map(|negated| negated)', expect={'C08': 'Not'}, control=False),
  dict(id='parser-result-inspected-not-mapped', kind='fire', file=P, patch='bn30-08.diff', old='expect(SymbolicBDDToken::Eof, tokens).map(|()| result)', new='expect(SymbolicBDDToken::Eof, tokens).map(|()| result.clone()).or(Ok(result))', expect={'C08': 'A1'}, control=False),
 ]
+
+# ninth round of behaviour-preserving patches (bn31 the ROBDD core, bn32 the CLI program, bn33 the evaluation half of the parser and the
+# exporters, bn34 the generators, bn35 the parser once more): 38 of 40 silent after the generalisations of DESIGN.md 15.7, two known alarms
+_BN9 = {31: ['C01', 'C02', 'C03', 'C05', 'C07', 'C13', 'C19', 'C20'], 32: ['C07', 'C09', 'C10', 'C11', 'C12', 'C14', 'C20'], 33: ['C07', 'C09', 'C10', 'C11', 'C12', 'C13', 'C14'],
+        34: ['C15', 'C16', 'C17', 'C18'], 35: ['C01', 'C03', 'C04', 'C05', 'C06', 'C08', 'C11']}
+_BN9_FILE = {31: B, 32: M, 33: P, 34: G, 35: P}
+_BN9_KNOWN = {'bn34-03': 'max_clique_gen writes its three vertex lists through a new helper with a hand-written separator loop: the clique text rules compare the pieces of text main emits with a reference bag of templates and count the uses of the vertex collection in main; a list assembled element by element in a helper has other pieces',
+              'bn35-08': 'parse_sub_formula tries parse_binary_operator and falls back to the left operand when it fails (`let Ok(op) = .. else { return Ok(left) }`): safe only because that callee never consumes a token before failing; A1 flags every inspected Result of a token-consuming function and does not derive failure-cleanliness of the callee'}
+for _k, _checks in _BN9.items():
+    for _n in range(1, 9):
+        _id = 'bn%d-%02d' % (_k, _n)
+        if _id in _BN9_KNOWN: CASES.append(dict(id=_id, kind='known-alarm', file=_BN9_FILE[_k], patch=_id + '.diff', checks=_checks, control=False, why=_BN9_KNOWN[_id]))
+        else: CASES.append(dict(id=_id, kind='silent', file=_BN9_FILE[_k], patch=_id + '.diff', checks=_checks, control=False))
+
+CASES += [
+ # every generalisation of round 9 with a twin that must fire
+ dict(id='env-new-array-loop-misses-false', kind='fire', file=B, patch='bn31-01.diff', old='for terminal in [BDD::True, BDD::False] {', new='for terminal in [BDD::True, BDD::True] {', expect={'C02': 'violation'}, control=False),
+ dict(id='mk-choice-inline-simplify-dropped', kind='fire', file=B, patch='bn31-02.diff', old='''        let ins = if true_subtree.as_ref() == false_subtree.as_ref() {
+            true_subtree
+        } else {
+            Rc::new(BDD::Choice(true_subtree, symbol, false_subtree))
+        };''', new='''        let ins = Rc::new(BDD::Choice(true_subtree, symbol, false_subtree));''', expect={'C02': 'E2'}, control=False),
+ dict(id='mk-choice-inline-simplify-inverted', kind='fire', file=B, patch='bn31-02.diff', old='if true_subtree.as_ref() == false_subtree.as_ref() {', new='if true_subtree.as_ref() != false_subtree.as_ref() {', expect={'C02': 'E2'}, control=False),
+ dict(id='main-destructured-model-inverted', kind='fire', file=M, patch='bn32-01.diff', old='    if model {', new='    if !model {', expect={'C07': 'model'}, control=False),
+ dict(id='main-destructured-retain-condition-dropped', kind='fire', file=M, patch='bn32-01.diff', old='    if !retain_choices.is_any() {', new='    if retain_choices.is_any() {', expect={'C20': 'retain'}, control=False),
+ dict(id='bench-option-result-default-shown', kind='fire', file=M, patch='bn32-03.diff', old='    (evaluated, tick.elapsed())', new='    let _ = evaluated;\n    (Rc::default(), tick.elapsed())', expect={'C10': 'X4'}, control=False),
+ dict(id='vars-handle-line-only-when-named', kind='fire', file=M, patch='bn32-04.diff', old='            if let Err(e) = writeln!(out, "{};", vars_str.join(", ")) {\n                panic!("failed printing to stdout: {e}");\n            }', new='            if !vars_str.is_empty() {\n                if let Err(e) = writeln!(out, "{};", vars_str.join(", ")) {\n                    panic!("failed printing to stdout: {e}");\n                }\n            }', expect={'C10': 'line per satisfying row'}, control=False),
+ dict(id='vars-handle-panic-elsewhere', kind='fire', file=M, patch='bn32-04.diff', old='            // like println!, a failed write panics\n', new='            if vars_str.len() > 64 {\n                panic!("too many variables to list");\n            }\n', expect={'C12': 'panic'}, control=False),
+ dict(id='with-entry-index-shifted', kind='fire', file=M, patch='bn32-07.diff', old='    bound[index] = entry;', new='    bound[index + 1] = entry;', expect={'C12': 'violation'}, control=False),
+ dict(id='with-entry-false-branch-records-true', kind='fire', file=M, patch='bn32-07.diff', old='let r_vals = with_entry(&values, parsed.to_free_index(s), TruthTableEntry::False);', new='let r_vals = with_entry(&values, parsed.to_free_index(s), TruthTableEntry::True);', expect={'C10': 'X1'}, control=False),
+ dict(id='from-tokens-unsorted-vars', kind='fire', file=P, patch='bn33-03.diff', old='        vars.sort_by(|a, b| a.id.cmp(&b.id));\n', new='        vars.reverse();\n', expect={'C10': 'free_vars order'}, control=False),
+ dict(id='parse-tree-collector-skips-else', kind='fire', file=PIO, patch='bn33-05.diff', old='                Self::collect_nodes(e, nodes);\n', new='', expect={'C14': 'X6'}, control=False),
+ dict(id='queens-while-diagonal-short', kind='fire', file=Q, patch='bn34-01.diff', old='        while j <= i {', new='        while j < i {', expect={'C15': 'violation'}, control=False),
+ dict(id='queens-square-wrong-column', kind='fire', file=Q, patch='bn34-02.diff', old='''                row: j,
+                column: i + j,''', new='''                row: j,
+                column: i,''', expect={'C15': 'violation'}, control=False),
+ dict(id='clique-pair-chain-keeps-equal-pairs', kind='fire', file=C, patch='bn34-04.diff', old='.filter(|(v1, v2)| v1 != v2);', new='.filter(|(v1, v2)| v1 == v2);', expect={'C16': 'violation'}, control=False),
+ dict(id='sudoku-helper-rows-written-as-columns', kind='fire', file=U, patch='bn34-05.diff', old='write_once_among(&mut writer, (0..square).map(|j| i * square + j), k)?;', new='write_once_among(&mut writer, (0..square).map(|j| j * square + i), k)?;', expect={'C17': 'row'}, control=False),
+ dict(id='sudoku-nonet-index-both-remainders', kind='fire', file=U, patch='bn34-06.diff', old='let (i, j) = (nonet / root, nonet % root);', new='let (i, j) = (nonet % root, nonet % root);', expect={'C17': 'box'}, control=False),
+ dict(id='graph-extend-directed-half', kind='fire', file=G, patch='bn34-08.diff', old='.filter(|&(j, _)| i != j)', new='.filter(|&(j, _)| i < j)', expect={'C18': 'violation'}, control=False),
+ dict(id='parser-operator-table-wrong-row', kind='fire', file=P, patch='bn35-01.diff', old='(SymbolicBDDToken::Nor, BinaryOperator::Nor),', new='(SymbolicBDDToken::Nor, BinaryOperator::Nand),', expect={'C03': 'Nor'}, control=False),
+ dict(id='parser-operator-table-missing-row', kind='fire', file=P, patch='bn35-01.diff', old='const BINARY_OPERATOR_TOKENS: [(SymbolicBDDToken, BinaryOperator); 8] = [\n    (SymbolicBDDToken::And, BinaryOperator::And),\n', new='const BINARY_OPERATOR_TOKENS: [(SymbolicBDDToken, BinaryOperator); 7] = [\n', expect={'C03': 'And'}, control=False),
+ dict(id='parser-countable-bound-lists-swapped', kind='fire', file=P, patch='bn35-02.diff', old='Self::CountableVariable(operator, leftlist, rightlist)', new='Self::CountableVariable(operator, rightlist, leftlist)', expect={'C05': 'CountableVariable', 'C08': 'CountableVariable'}, control=False),
+ dict(id='parser-variable-list-first-not-collected', kind='fire', file=P, patch='bn35-04.diff', old='''        vars.push(Self::parse_variable_name(tokens)?);
+
+        // every further''', new='''        Self::parse_variable_name(tokens)?;
+
+        // every further''', expect={'C04': 'list contents', 'C08': 'list contents'}, control=False),
+ dict(id='parser-expect-filter-inverted', kind='fire', file=P, patch='bn35-05.diff', old='''    let found = tokens.next();
+
+    found
+        .filter(|t| **t == token)''', new='''    let found = tokens.next();
+
+    found
+        .filter(|t| **t != token)''', expect={'C08': 'helper shape'}, control=False),
+ dict(id='parser-peeked-true-builds-false', kind='fire', file=P, patch='bn35-07.diff', old='''                tokens.next();
+                Ok(Self::True)''', new='''                tokens.next();
+                Ok(Self::False)''', expect={'C08': 'A3'}, control=False),
+ dict(id='parser-peeked-var-not-consumed', kind='fire', file=P, patch='bn35-07.diff', old='''            Some(SymbolicBDDToken::Var(var)) => {
+                tokens.next();''', new='''            Some(SymbolicBDDToken::Var(var)) => {''', expect={'C08': 'violation'}, control=False),
+ # the round-9 seeds that needed a new rule or a wider bundle
+ dict(id='number-token-fallback-value', kind='fire', file=P, patch='../../seeded/C05-r9b/patch.diff', expect={'C05': 'number conversion'}, control=False),
+ dict(id='number-token-text-bound-first', kind='silent', file=P, old='''                let parsed_number = number.as_str().parse().map_err(|e| {''', new='''                let digits = number.as_str();
+                let parsed_number = digits.parse().map_err(|e| {''', checks=['C05', 'C08'], control=False),
+ dict(id='ite-shortcut-wrong-row', kind='fire', file=B, patch='../../seeded/C06-r9c/patch.diff', expect={'C06': 'ite'}, control=False),
+]
